@@ -210,8 +210,8 @@ func specMaxVersion(spec *tls.ClientHelloSpec) uint16 {
 func TestC03(t *testing.T) {
 	r := mon.New("C03", "every predefined ClientHelloID x N connections x SNI values (fresh connections; plus resumed connections over a shared session cache for ticket/PSK parrots): wire hello compared with an independent reference encoding of UTLSIdToSpec(id) (exported fields only), wildcards only for per-connection material; shuffling Chrome IDs compared as multiset with GREASE/padding/PSK at spec indices. distinct = (parrot, extension order) pairs")
 	defer r.Finish(t)
-	conns := mon.Pick(64, 3000)
-	snis := []string{"example.test", "a.test", longName(120), "192.0.2.9"}
+	conns := mon.Pick(13*9+4, 3000)
+	snis := append([]string{"example.test", "a.test", longName(120), "192.0.2.9"}, boundaryNames()...)
 	for _, p := range AllParrots {
 		orders := map[string]bool{}
 		for k := 0; k < conns; k++ {
@@ -224,7 +224,18 @@ func TestC03(t *testing.T) {
 			cfg := &tls.Config{ServerName: sni, OmitEmptyPsk: true, InsecureSkipVerify: true}
 			// Config knobs that must not leak into a parrot's hello: the spec decides
 			flavour := ""
-			switch (k / len(snis)) % 8 {
+			echFlavour := false
+			switch (k / len(snis)) % 9 {
+			case 8:
+				// an ECH config list in the Config: a parrot whose spec has an ECH extension sends
+				// the real offer in its place (C15's subject, skipped here); one without cannot
+				// encode the offer and must refuse instead of sending some other hello
+				if specHasECH(&spec) {
+					break
+				}
+				cfg.EncryptedClientHelloConfigList = peer.ECHConfigList(c01ECHKey())
+				flavour = "Config.EncryptedClientHelloConfigList"
+				echFlavour = true
 			case 1:
 				cfg.MinVersion, cfg.MaxVersion = tls.VersionTLS10, tls.VersionTLS11
 				flavour = "Config versions 1.0-1.1"
@@ -255,6 +266,10 @@ func TestC03(t *testing.T) {
 			var raw []byte
 			if k%6 == 5 {
 				hs, _, herr, pn := sendHello(cfg, p.ID, nil)
+				if echFlavour && pn == "" && len(hs) == 0 && herr != nil {
+					r.Count("ech_offer_refused_without_ech_extension", 1)
+					continue
+				}
 				if pn != "" || len(hs) == 0 {
 					r.Violation(map[string]string{"kind": "no_hello_on_wire", "parrot": p.Name}, fmt.Sprintf("no ClientHello reached the wire: err=%v panic=%s", herr, pn), nil)
 					continue
@@ -264,6 +279,10 @@ func TestC03(t *testing.T) {
 			} else {
 				var pn string
 				raw, _, err, pn = buildHello(cfg, p.ID, nil)
+				if echFlavour && err != nil && pn == "" {
+					r.Count("ech_offer_refused_without_ech_extension", 1)
+					continue
+				}
 				if err != nil {
 					r.Violation(map[string]string{"kind": "build_error", "parrot": p.Name}, fmt.Sprintf("%v %s", err, pn), nil)
 					continue
@@ -414,4 +433,13 @@ func boringPaddingProblem(ch *wire.ClientHello) string {
 		}
 	}
 	return ""
+}
+
+func specHasECH(sp *tls.ClientHelloSpec) bool {
+	for _, e := range sp.Extensions {
+		if _, ok := e.(tls.EncryptedClientHelloExtension); ok {
+			return true
+		}
+	}
+	return false
 }
